@@ -82,6 +82,7 @@ type cbReg struct {
 	unInv, unRet   uint64
 	reg            metric.Registration
 	calls          []uint64 // stamps of invocations
+	callColl       []uint64 // per invocation: invoke stamp of the collection (of the calling task) it ran for
 }
 
 type spanOp struct {
@@ -207,8 +208,12 @@ func (engine) Body(r *simdrv.Run) {
 	otel.VerifResetGlobals()
 	otel.SetErrorHandler(otel.ErrorHandlerFunc(func(error) {}))
 
+	// two readers: their collections may overlap, and each must get every callback's observations
+	// (after seeded change C16-g)
 	reader := sdkmetric.NewManualReader()
-	sdkmp := sdkmetric.NewMeterProvider(sdkmetric.WithReader(reader))
+	reader2 := sdkmetric.NewManualReader()
+	sdkmp := sdkmetric.NewMeterProvider(sdkmetric.WithReader(reader), sdkmetric.WithReader(reader2))
+	collObs := map[uint64]map[string]map[int]float64{} // collection invoke stamp -> instrument -> callback id -> value
 	rp := &recProc{w: w, ended: map[string]int{}}
 	sdktp := sdktrace.NewTracerProvider(sdktrace.WithSpanProcessor(rp))
 
@@ -217,6 +222,7 @@ func (engine) Body(r *simdrv.Run) {
 	mkCallback := func(cb *cbReg, h *handle) metric.Callback {
 		return func(_ context.Context, o metric.Observer) error {
 			cb.calls = append(cb.calls, sim.Stamp())
+			cb.callColl = append(cb.callColl, curColl[sim.CurrentTask()])
 			// every callback observes under its own attribute set, so that the collected data names it
 			at := metric.WithAttributes(attribute.Int("cb", cb.id))
 			if h.obsI != nil {
@@ -402,16 +408,67 @@ func (engine) Body(r *simdrv.Run) {
 			}
 		})
 	}
-	collect := func(task string) {
+	obsOf := func(rm *metricdata.ResourceMetrics) map[string]map[int]float64 {
+		out := map[string]map[int]float64{}
+		note := func(k string, as attribute.Set, v float64) {
+			if id, ok := as.Value("cb"); ok {
+				if out[k] == nil {
+					out[k] = map[int]float64{}
+				}
+				out[k][int(id.AsInt64())] += v // (+=: a value delivered twice shows)
+			}
+		}
+		for _, sm := range rm.ScopeMetrics {
+			for _, m := range sm.Metrics {
+				k := sm.Scope.Name + "/" + m.Name
+				switch d := m.Data.(type) {
+				case metricdata.Sum[int64]:
+					for _, dp := range d.DataPoints {
+						note(k, dp.Attributes, float64(dp.Value))
+					}
+				case metricdata.Sum[float64]:
+					for _, dp := range d.DataPoints {
+						note(k, dp.Attributes, dp.Value)
+					}
+				case metricdata.Gauge[int64]:
+					for _, dp := range d.DataPoints {
+						note(k, dp.Attributes, float64(dp.Value))
+					}
+				case metricdata.Gauge[float64]:
+					for _, dp := range d.DataPoints {
+						note(k, dp.Attributes, dp.Value)
+					}
+				}
+			}
+		}
+		return out
+	}
+	collectOn := func(task string, rd *sdkmetric.ManualReader) {
 		o := &simdrv.OpCall{Kind: "collect", Task: task, Inv: sim.Stamp()}
 		w.colls = append(w.colls, o)
 		curColl[task] = o.Inv
 		var rm metricdata.ResourceMetrics
-		o.Err = reader.Collect(context.Background(), &rm)
+		o.Err = rd.Collect(context.Background(), &rm)
 		o.Ret = sim.Stamp()
 		delete(curColl, task)
-		r.Log("%d collect task=%s err=%v (invoked %d)", o.Ret, task, o.Err, o.Inv)
+		collObs[o.Inv] = obsOf(&rm)
+		r.Log("%d collect task=%s second-reader=%v err=%v (invoked %d)", o.Ret, task, rd == reader2, o.Err, o.Inv)
 	}
+	collect := func(task string) { collectOn(task, reader) }
+	// a task of its own collects on the second reader at a drawn moment
+	collectorAfter := r.Cfg(12)
+	sim.Spawn("collector2", func() {
+		for i := 0; i < collectorAfter; i++ {
+			simrt.Yield(simdrv.PtOp)
+		}
+		n := 1 + sim.Draw(2)
+		for i := 0; i < n; i++ {
+			simrt.Yield(simdrv.PtOp)
+			inflight["collector2"] = "collect"
+			collectOn("collector2", reader2)
+			delete(inflight, "collector2")
+		}
+	})
 	sim.Spawn("installer", func() {
 		for i := 0; i < installAfter; i++ {
 			simrt.Yield(simdrv.PtOp)
@@ -683,8 +740,8 @@ func (engine) Body(r *simdrv.Run) {
 			}
 			for _, cb := range w.cbs {
 				n := 0
-				for _, at := range cb.calls {
-					if at > c.Inv && at < c.Ret {
+				for i := range cb.calls {
+					if cb.callColl[i] == c.Inv {
 						n++
 					}
 				}
@@ -698,6 +755,12 @@ func (engine) Body(r *simdrv.Run) {
 				}
 				if mustNot && n > 0 {
 					r.Violate(prop, "callback-after-unregister", "callback-after-unregister", "callback %d (%s) whose Unregister returned at %d was invoked by the collection %d..%d", cb.id, cb.key, cb.unRet, c.Inv, c.Ret)
+				}
+				// what the callback observed for this collection is in this collection's data, once
+				if obs, have := collObs[c.Inv]; have && mustRun && n == 1 && cb.reg != nil {
+					if v := obs[cb.key.meter+"/"+cb.key.name][cb.id]; v != float64(1000+cb.id) {
+						r.Violate(prop, "observation-lost", "observation-misrouted/"+cb.key.kind, "callback %d observed %d on %s for the collection %d..%d (task %s), whose data holds %v for it", cb.id, 1000+cb.id, cb.key, c.Inv, c.Ret, c.Task, v)
+					}
 				}
 			}
 		}
